@@ -55,9 +55,17 @@ def flat_function(lang: str, name: str, length: int) -> str:
     raise ValueError(lang)
 
 
-def flat_file(lang: str, lengths, names=None) -> str:
+def flat_file(lang: str, lengths, names=None, marked=()) -> str:
+    """marked: indices of functions that carry the suppression marker on their header line"""
     names = names or [f"fn{i}" for i in range(len(lengths))]
-    body = "\n".join(flat_function(lang, n, v) for n, v in zip(names, lengths))
+    parts = []
+    for i, (n, v) in enumerate(zip(names, lengths)):
+        text = flat_function(lang, n, v)
+        if i in marked:
+            first, rest = text.split("\n", 1)
+            text = first + ("  # nocl" if lang == "Python" else " // nocl") + "\n" + rest
+        parts.append(text)
+    body = "\n".join(parts)
     if lang in ("Java", "C#"):
         return "class Holder {\n" + body + "}\n"
     return body
